@@ -223,7 +223,7 @@ def in_regions(a, regions, names):
 
 class ErrorFreePart:
     name = "errorfree"
-    budget = {"quick": 800, "thorough": 15000}
+    budget = {"quick": 2400, "thorough": 30000}
 
     def strategy(self, tier):
         @st.composite
@@ -398,7 +398,7 @@ def gen_quality(draw):
 
 class QualityPart:
     name = "quality"
-    budget = {"quick": 640, "thorough": 12000}
+    budget = {"quick": 2400, "thorough": 30000}
 
     def strategy(self, tier):
         @st.composite
